@@ -17,6 +17,9 @@
 //	extreme ladders through the full range of every payload domain, embedded as scalars, array
 //	        elements, map keys, container items (mut.go)
 //	mut     live objects: rounds of public mutators between judgements, fresh twins (mut.go)
+//	stride  long sequences: members below, at and above one and two strides W that differ at two
+//	        positions of a stride in opposite directions, with their proper prefixes (shape.go)
+//	absent  containers whose entries are absent or hold a nothing-like value (shape.go)
 //	kf_*    witnesses of open known findings (none at present)
 //
 // NaN never occurs in a pool (the property is silent about it; the spec skips NaN members anyway).
@@ -396,13 +399,43 @@ func Run(c *core.Ctx) error {
 		}
 	}
 
+	// a third trace file
+	t3 := c.Trace("c20_shape", "Trace_ValueLaws")
+	if c.WantGen("stride") {
+		for cas := 0; cas < c.Pick(2*len(seqEmbeddings()), (2+2*len(strideAll))*len(seqEmbeddings())); cas++ {
+			if !c.Want("stride", cas) {
+				continue
+			}
+			r := c.Rng("stride", cas)
+			e, W := strideCase(r, cas)
+			ns, name := stridePool(r, e, W)
+			judge(c, t3, "stride", cas, ns)
+			if cas == 0 {
+				c.Sample(core.Ev{"gen": "stride", "case": cas, "shape": name, "members": 2 * len(ns), "first": valgen.Proj(ns[0]), "second": valgen.Proj(ns[1])})
+			}
+		}
+	}
+
+	if c.WantGen("absent") {
+		for cas := 0; cas < c.Pick(12, 360); cas++ {
+			if !c.Want("absent", cas) {
+				continue
+			}
+			ns, name := absentPool(c.Rng("absent", cas), cas)
+			judge(c, t3, "absent", cas, ns)
+			if cas == 1 {
+				c.Sample(core.Ev{"gen": "absent", "case": cas, "shape": name, "members": 2 * len(ns), "first": valgen.Proj(ns[0]), "second": valgen.Proj(ns[1])})
+			}
+		}
+	}
+
 	if c.WantGen("mut") {
 		for cas := 0; cas < c.Pick(36, 1400); cas++ {
 			if !c.Want("mut", cas) {
 				continue
 			}
 			r := c.Rng("mut", cas)
-			ns, e := mutMembers(r)
+			ns, e := mutMembers(r, cas%5 == 4)
 			judgeLive(c, t2, "mut", cas, r, ns, e, 1+r.Intn(3))
 			if cas == 0 {
 				c.Sample(core.Ev{"gen": "mut", "case": 0, "live": len(ns), "members": 3 * len(ns), "first": valgen.Proj(ns[0]), "keys": e.keys})
